@@ -1144,6 +1144,72 @@ def _pairs_iterable(e, root):
     return False
 
 
+def _const_set(e):
+    """the literal values a (conditional expression of) literal(s) can take, or None"""
+    if isinstance(e, ast.Constant) and (e.value is None or type(e.value) in (int, float, bool, str)):
+        return [e.value]
+    if isinstance(e, ast.UnaryOp) and isinstance(e.op, ast.USub) and isinstance(e.operand, ast.Constant) \
+            and type(e.operand.value) in (int, float):
+        return [-e.operand.value]
+    if isinstance(e, ast.IfExp):
+        a, b = _const_set(e.body), _const_set(e.orelse)
+        return None if a is None or b is None else a + b
+    return None
+
+
+def _decide_test(test, x, values):
+    """truth of ``test`` (reads only ``x`` and literals) when it is the same for every value, else None"""
+    class Unknown(Exception):
+        pass
+
+    def ev(e, v):
+        if isinstance(e, ast.Name):
+            if e.id == x and isinstance(e.ctx, ast.Load):
+                return v
+            raise Unknown()
+        if isinstance(e, ast.Constant):
+            return e.value
+        if isinstance(e, ast.UnaryOp) and isinstance(e.op, ast.Not):
+            return not ev(e.operand, v)
+        if isinstance(e, ast.UnaryOp) and isinstance(e.op, ast.USub):
+            r = ev(e.operand, v)
+            if type(r) not in (int, float):
+                raise Unknown()
+            return -r
+        if isinstance(e, ast.BoolOp):
+            r = None
+            for sub in e.values:
+                r = ev(sub, v)
+                if isinstance(e.op, ast.And) and not r:
+                    return r
+                if isinstance(e.op, ast.Or) and r:
+                    return r
+            return r
+        if isinstance(e, ast.Compare) and len(e.ops) == 1:
+            a, b = ev(e.left, v), ev(e.comparators[0], v)
+            op = e.ops[0]
+            if isinstance(op, (ast.Is, ast.IsNot)):
+                if a is None or b is None:
+                    return (a is b) == isinstance(op, ast.Is)
+                raise Unknown()
+            num = lambda z: type(z) in (int, float, bool)
+            if isinstance(op, (ast.Eq, ast.NotEq)):
+                if (num(a) and num(b)) or (isinstance(a, str) and isinstance(b, str)) or a is None or b is None:
+                    return (a == b) == isinstance(op, ast.Eq)
+                if type(a) != type(b):
+                    return isinstance(op, ast.NotEq)
+                raise Unknown()
+            if num(a) and num(b) and isinstance(op, (ast.Lt, ast.LtE, ast.Gt, ast.GtE)):
+                return {ast.Lt: a < b, ast.LtE: a <= b, ast.Gt: a > b, ast.GtE: a >= b}[type(op)]
+            raise Unknown()
+        raise Unknown()
+    try:
+        rs = {bool(ev(test, v)) for v in values}
+    except Unknown:
+        return None
+    return rs.pop() if len(rs) == 1 else None
+
+
 def _norm_simple(stmts, ctx):
     """statement-local rewrites inside one block (no nesting changes)"""
     stmts = [s for s in stmts if not isinstance(s, ast.Pass)]
@@ -1532,6 +1598,26 @@ def _norm_simple(stmts, ctx):
                         stmts[i + 1] = _Subst({v: st.value}).visit(nxt)
                         changed = True
                         i += 1
+                        continue
+            # if c: ..; x = E1  else: ..; x = E2     followed by     if TEST(x): X else: Y
+            # where TEST reads x and literals only and E1 / E2 are (conditional expressions of) literals that decide it:
+            # the second ``if`` is threaded into the arms of the first
+            if isinstance(st, ast.If) and st.orelse and isinstance(nxt, ast.If):
+                def last_assign(block):
+                    if block and isinstance(block[-1], ast.Assign) and len(block[-1].targets) == 1 \
+                            and isinstance(block[-1].targets[0], ast.Name):
+                        return block[-1].targets[0].id, _const_set(block[-1].value)
+                    return None, None
+                x1, vs1 = last_assign(st.body)
+                x2, vs2 = last_assign(st.orelse)
+                if x1 is not None and x1 == x2 and vs1 and vs2:
+                    d1, d2 = _decide_test(nxt.test, x1, vs1), _decide_test(nxt.test, x1, vs2)
+                    if d1 is not None and d2 is not None and d1 != d2:
+                        pick = lambda d: [ast.parse(ast.unparse(x_)).body[0] for x_ in (nxt.body if d else nxt.orelse)]
+                        out.append(ast.If(test=st.test, body=list(st.body) + pick(d1), orelse=list(st.orelse) + pick(d2),
+                                          lineno=st.lineno, col_offset=0))
+                        changed = True
+                        i += 2
                         continue
             # if c: ..; t = K1  else: ..; t = K2     followed by     if [not] t: X        (t a flag used nowhere else)
             if isinstance(st, ast.If) and st.orelse and isinstance(nxt, ast.If) and not nxt.orelse and ctx.get("root") is not None:
